@@ -798,8 +798,8 @@ static void InitFields(void) {
     AddReg("CVTILR", 0x675, LongOp, NoneOp, DoubleOp, True, False, False);
     AddReg("CVTRI", 0x6c0, SingleOp, NoneOp, IntOp, True, False, False);
     AddReg("CVTRIL", 0x6c1, SingleOp, NoneOp, LongOp, True, False, False);
-    AddReg("CVTZRI", 0x6c2, IntOp, NoneOp, IntOp, True, False, False);
-    AddReg("CVTZRIL", 0x6c3, LongOp, NoneOp, LongOp, True, False, False);
+    AddReg("CVTZRI", 0x6c2, SingleOp, NoneOp, IntOp, True, False, False);
+    AddReg("CVTZRIL", 0x6c3, SingleOp, NoneOp, LongOp, True, False, False);
     /*  Name       OpCode Src1Type  Src2Type  DestType  Imm1   Imm2 */
     AddReg("DADDC", 0x642, IntOp, IntOp, IntOp, False, False, False);
     AddReg("DIVI", 0x74b, IntOp, IntOp, IntOp, True, True, False);
